@@ -1,56 +1,71 @@
 """C11 - flavor inheritance and daemon order follow component order, whatever the history."""
-import json, os, re, shutil, tempfile
+import json, os
 
-from lib import common, pipeline
+from lib import common, gen, pipeline
 
 PROP = "C11"
 SPEC = os.path.join(common.VERIF, "spec", "Flavors")
 
 
-def gen(max_ops):
-    d = tempfile.mkdtemp(prefix="spec-c11-", dir=common.scratch())
-    for f in os.listdir(SPEC):
-        shutil.copy(os.path.join(SPEC, f), d)
-    cfg = re.sub(r"MaxOps = \d+", f"MaxOps = {max_ops}", open(os.path.join(SPEC, "Flavors.cfg")).read())
-    open(os.path.join(d, "Flavors.cfg"), "w").write(cfg)
-    r = common.run_tlc_with_files(d, "Flavors", "Flavors.cfg", {}, timeout=1500)
-    if r["errors"]:
-        raise common.Infra("Flavors: " + "; ".join(r["errors"][:3]))
-    stimuli = []
-    for row in common.emitted(r["out"]):
-        stimuli.append({"id": len(stimuli) + 1, "ops": row["hist"], "flavors": sorted(row["expect"].keys()),
-                        "expect": row["expect"], "feat": sorted(row["feat"])})
-    return stimuli, r
+def to_stim(rows):
+    out = []
+    for row in rows:
+        out.append({"ops": row["hist"], "flavors": sorted(row["expect"].keys()), "expect": row["expect"],
+                    "feat": sorted(row["feat"])})
+    return out
 
 
 def judge(stim, ev):
     """Compare the observation with the expectation TLC computed; returns '' or a reason."""
+    for i, st in enumerate(ev["defs"]):
+        if st:
+            return f"defining form {i + 1} failed: {st}"
     for f, ex in stim["expect"].items():
         ob = ev["obs"].get(f)
         if ob is None:
             return f"{f}: not observed"
+        if ob.get("fault"):
+            return f"{f}: internal fault {ob['err']}"
         if ob["prec"] != ex["prec"]:
             return f"{f}: precedence {ob['prec']} want {ex['prec']}"
         if not ex["handles"]:
             if not ob["err"]:
                 return f"{f}: unhandled message accepted, trace {ob['trace']}"
-            continue
-        if ob["err"] or ob["trace"] != ex["trace"]:
+        elif ob["err"] or ob["trace"] != ex["trace"]:
             return f"{f}: trace {ob['trace']} {ob['err']} want {ex['trace']}"
+        if ex["vfrom"]:
+            if ob["vdef"] != f'="{ex["vfrom"]}"':
+                return f"{f}: default of v is {ob['vdef']}, want the one declared by {ex['vfrom']}"
+            if ob["vinit"] != "=7":
+                return f"{f}: init keyword :v gives {ob['vinit']}, want 7"
+        else:
+            if ob["vdef"].startswith("=") or ob["vinit"].startswith("="):
+                return f"{f}: has no variable v by inheritance but :v answered {ob['vdef']} / {ob['vinit']}"
     return ""
 
 
 def run(tier, seed):
     rep = common.Report(PROP, tier, seed)
-    max_ops = int(os.environ.get("VERIF_DEPTH", 4 if tier == "quick" else 6))
+    depth = int(os.environ.get("VERIF_DEPTH", 5 if tier == "quick" else 6))
+    walks = int(os.environ.get("VERIF_WALKS", 250 if tier == "quick" else 3000))
     vdrive = common.build_harness()
-    stimuli, g = gen(max_ops)
-    rep.cov["states"], rep.cov["transitions"] = g["distinct"], g["generated"]
+    rows, g = gen.bfs(SPEC, "Flavors", "Flavors.cfg", {"MaxOps": depth}, timeout=3000)
+    stimuli = to_stim(rows)
+    n_bfs = len(stimuli)
+    sims = []
+    for k in range(1 if tier == "quick" else 3):
+        rows2, g2 = gen.sim(SPEC, "Flavors", "FlavorsSim.cfg", {}, num=walks, depth=20, seed=seed * 100 + k, timeout=3000)
+        stimuli += to_stim(rows2)
+        sims.append(g2)
+    for i, s in enumerate(stimuli):
+        s["id"] = i + 1
     open_feats = {f["feature"]: f for f in common.load_findings(PROP) if f.get("status") == "open"}
     events = pipeline.drive(vdrive, "c11", [{k: s[k] for k in ("id", "ops", "flavors")} for s in stimuli], chunk=250)
     by_t = {e["t"]: e for e in events}
     hit = {}
+    shapes = set()
     for s in stimuli:
+        shapes.add(json.dumps(s["expect"], sort_keys=True))
         why = judge(s, by_t[s["id"]])
         if not why:
             continue
@@ -64,11 +79,31 @@ def run(tier, seed):
     for feat, f in open_feats.items():
         if feat in hit:
             rep.known.append(f["summary"] + f" ({len(hit[feat])} probes rejected)")
-    rep.cov.update({"traces_validated_against_impl": len(stimuli), "evaluations": len(stimuli),
-                    "distinct_nontrivial": g["distinct"], "exhaustive": True,
-                    "rule": f"one history of defflavor/defmethod/defwhopper forms per transition of Flavors (4 flavors, <=2 components, "
-                            f"<={max_ops} forms, VIEW on definitions); every defined flavor is instantiated and sent :m; "
-                            "expected precedence and daemon trace computed by TLC from the reference",
-                    "samples": [{"stimulus": s["ops"], "expect": s["expect"]} for s in stimuli[:: max(1, len(stimuli) // 4)][:4]],
-                    "probes": {k: len(v) for k, v in hit.items()}})
+    rep.cov.update({"states": g["distinct"], "transitions": g["generated"],
+                    "traces_validated_against_impl": len(stimuli), "evaluations": len(stimuli),
+                    "distinct_nontrivial": len(shapes), "exhaustive": True,
+                    "rule": f"(a) one history of defflavor/defmethod/defwhopper forms per transition of Flavors.tla (4 flavors, <=2 components, "
+                            f"<={depth} forms, flavors named in definition order, VIEW on the definitions) - exhaustive; (b) the final "
+                            f"states of {walks} random walks per seed through the same Next relation with 7 flavors, <=3 components, 14 forms. "
+                            "After each history every defined flavor is instantiated and sent :m; precedence list, daemon trace, default / "
+                            "accessor / init keyword of variable v are compared with what TLC computed from the reference. "
+                            "distinct_nontrivial = distinct expected observations (precedence lists + traces) among the histories",
+                    "samples": [{"stimulus": s["ops"], "expect": s["expect"]} for s in (stimuli[n_bfs // 2], stimuli[-1])],
+                    "gen": {"bfs": g, "sim": sims}, "probes": {k: len(v) for k, v in hit.items()}})
+    rep.assumptions = ["names of flavors are immaterial (flavors are created in the order fa, fb, ...)",
+                       "one message :m and one instance variable v stand for all messages and variables"]
     return rep.finish()
+
+
+def replay(path):
+    payload = json.load(open(path))
+    vdrive = common.build_harness()
+    s = payload["stimulus"]
+    ev = pipeline.drive(vdrive, "c11", [{k: s[k] for k in ("id", "ops", "flavors")}])[0]
+    why = judge(s, ev)
+    print(json.dumps(ev))
+    if why:
+        print(f"VIOLATION property={PROP} replay={path}\n  {why}")
+        return 1
+    print("accepted")
+    return 0
